@@ -623,6 +623,11 @@ def elementwise_divide(x, y, eps=1e-12, starting_tensor=None, nswp=50, kick=4, l
         torchtt.TT: the result
     """
 
+    if not isinstance(x, torchtt._tt_base.TT):
+        # a scalar numerator (documented): the constant tensor of the shape of y
+        o = ones(y.N, dtype=y.cores[0].dtype, device=y.cores[0].device)
+        o.cores[0] = o.cores[0] * x
+        x = o
     cores_new = amen_divide(y, x, nswp, starting_tensor, eps, rmax=1000, kickrank=kick,
                             local_iterations=local_iterations, resets=resets, verbose=verbose, preconditioner=preconditioner)
     return torchtt._tt_base.TT(cores_new)
